@@ -211,7 +211,7 @@ def run(ctx):
     ctx.run_enum('socket', so, prop_socket, exhaustive_label='Darwin address families x socket kinds')
     opts = sorted(D.SO)
     sk = [{'name': n, 'level': lv, 'opt': opts[(i * 5 + j) % len(opts)] if lv == 0xffff else (i + j) % 300, 'seed': base + i}
-          for n in ('BSC_setsockopt', 'BSC_getsockopt') for j, lv in enumerate((0xffff, 1, 6, 0, 0xffff)) for i in range(len(opts) if not ctx.quick else 25)]
+          for n in ('BSC_setsockopt', 'BSC_getsockopt') for j, lv in enumerate((0xffff, 1, 6, 0, 0xffff)) for i in range(len(opts))]
     ctx.run_enum('sockopt', sk, prop_sockopt)
     strat = st.fixed_dictionaries({'name': st.sampled_from(bsd), 'code': st.one_of(st.integers(0, 140), st.integers(100, 140)),
                                    'seed': st.integers(0, 2 ** 40)})
